@@ -31,9 +31,9 @@ Theorem C07_level_conservation :
 Proof. exact level_conservation. Qed.
 Print Assumptions C07_level_conservation.
 
-(* ---- stores never hold more than capacity items (capacity a whole number or infinite) ---------- *)
+(* ---- stores never hold more than capacity items, for every capacity > 0 (fractional ones too) ---- *)
 Theorem C07_store_bounded :
-  forall (A : Type) (cap : option Q), cap_integral cap ->
+  forall (A : Type) (cap : option Q), cap_pos cap ->
   forall (fixed : bool) (acts : list (action (Store A cap))) (t0 : Q) (s : state (Store A cap)),
     run fixed (init (K:=Store A cap) [] t0) acts = Some s ->
     match cap with Some c => (inject_Z (Z.of_nat (length (content s))) <= c)%Q | None => True end.
@@ -41,7 +41,7 @@ Proof. exact store_bounded. Qed.
 Print Assumptions C07_store_bounded.
 
 Theorem C07_prio_store_bounded :
-  forall (A : Type) (key : A -> Z) (cap : option Q), cap_integral cap ->
+  forall (A : Type) (key : A -> Z) (cap : option Q), cap_pos cap ->
   forall (fixed : bool) (acts : list (action (PriorityStore A key cap))) (t0 : Q) (s : state (PriorityStore A key cap)),
     run fixed (init (K:=PriorityStore A key cap) [] t0) acts = Some s ->
     match cap with Some c => (inject_Z (Z.of_nat (length (content s))) <= c)%Q | None => True end.
@@ -49,12 +49,21 @@ Proof. exact prio_bounded. Qed.
 Print Assumptions C07_prio_store_bounded.
 
 Theorem C07_filter_store_bounded :
-  forall (A : Type) (cap : option Q), cap_integral cap ->
+  forall (A : Type) (cap : option Q), cap_pos cap ->
   forall (fixed : bool) (acts : list (action (FilterStore A cap))) (t0 : Q) (s : state (FilterStore A cap)),
     run fixed (init (K:=FilterStore A cap) [] t0) acts = Some s ->
     match cap with Some c => (inject_Z (Z.of_nat (length (content s))) <= c)%Q | None => True end.
 Proof. exact filter_bounded. Qed.
 Print Assumptions C07_filter_store_bounded.
+
+(* the capacity guard of the pinned commit (len(items) < capacity, before fix: 2019701) lets a Store of
+   capacity 5/2 hold three items *)
+Theorem C07_store_bounded_refuted_before_fix :
+  exists (acts : list (action (Store_unfixed Z (Some (5 # 2)%Q)))) (s : state (Store_unfixed Z (Some (5 # 2)%Q))),
+    run true (init (K:=Store_unfixed Z (Some (5 # 2)%Q)) [] 0%Q) acts = Some s /\
+    ~ (inject_Z (Z.of_nat (length (content s))) <= 5 # 2)%Q.
+Proof. exact store_bounded_refuted_unfixed. Qed.
+Print Assumptions C07_store_bounded_refuted_before_fix.
 
 (* ---- every accepted item is held or was handed to exactly one getter, exactly once -------------- *)
 (* accepted = items of the granted puts, delivered = values of the granted gets, both in log order *)
@@ -220,7 +229,7 @@ Theorem C07_heads_blocked_store :
          (s : state (Store A cap)) (t : Q) (s' : state (Store A cap)),
     run true (init (K:=Store A cap) [] t0) acts = Some s ->
     step true s (AAdvance t) = Some s' ->
-    (putq s <> [] -> exists c, cap = Some c /\ (c <= inject_Z (Z.of_nat (length (content s))))%Q) /\
+    (putq s <> [] -> exists c, cap = Some c /\ (c < inject_Z (Z.of_nat (length (content s))) + 1)%Q) /\
     (getq s <> [] -> content s = []).
 Proof. exact store_heads_blocked. Qed.
 Print Assumptions C07_heads_blocked_store.
@@ -230,7 +239,7 @@ Theorem C07_heads_blocked_prio :
          (s : state (PriorityStore A key cap)) (t : Q) (s' : state (PriorityStore A key cap)),
     run true (init (K:=PriorityStore A key cap) [] t0) acts = Some s ->
     step true s (AAdvance t) = Some s' ->
-    (putq s <> [] -> exists c, cap = Some c /\ (c <= inject_Z (Z.of_nat (length (content s))))%Q) /\
+    (putq s <> [] -> exists c, cap = Some c /\ (c < inject_Z (Z.of_nat (length (content s))) + 1)%Q) /\
     (getq s <> [] -> content s = []).
 Proof. exact prio_heads_blocked. Qed.
 Print Assumptions C07_heads_blocked_prio.
@@ -240,7 +249,7 @@ Theorem C07_heads_blocked_filter :
          (s : state (FilterStore A cap)) (t : Q) (s' : state (FilterStore A cap)),
     run true (init (K:=FilterStore A cap) [] t0) acts = Some s ->
     step true s (AAdvance t) = Some s' ->
-    (putq s <> [] -> exists c, cap = Some c /\ (c <= inject_Z (Z.of_nat (length (content s))))%Q) /\
+    (putq s <> [] -> exists c, cap = Some c /\ (c < inject_Z (Z.of_nat (length (content s))) + 1)%Q) /\
     (forall i f, In (i, f) (getq s) -> forall y, In y (content s) -> f y = false).
 Proof. exact filter_heads_blocked. Qed.
 Print Assumptions C07_heads_blocked_filter.
